@@ -1123,7 +1123,7 @@ def oracle_pipe(ctx, case, res):
 def gen_pipe_cases(quick):
     exits = []
     for st in STATUSES:
-        outs = OUTPUTS if st in (1, 75) else OUTPUTS[:4]
+        outs = OUTPUTS if st == 1 else (OUTPUTS[:21] if st == 75 else OUTPUTS[:4])
         for o in outs:
             exits.append(('exit', st, o, b''))
             exits.append(('exit', st, b'', o))
